@@ -120,7 +120,8 @@ class CHECK(core.Check):
                "C14_under_descent_counterexample (D6), C14_over_climb_counterexample (D64): repaired by "
                "fixes/D06-under-loop-check.patch, fixes/D64-over-loop-check.patch (C14_repaired_loops_terminate)",
                "C14_clone_worklist_counterexample (D5: a moot framer cloning itself, directly or through others — the build "
-               "never returns): known finding, C14_clone_worklist_terminates is the partial theorem",
+               "never returns): known finding on the tree as found, C14_clone_worklist_terminates is the partial theorem; "
+               "repaired by fixes/D05-moot-clone-loop.patch (C14_repaired_clone_worklist_terminates, _conservative)",
                "internal errors that remain reachable are listed in Props/C14.lean `knownCrashSites`"]
     TECHNIQUE = ("Lean 4 theorems (rank / closed-set arguments for the loops, pigeonhole for the repaired loops; decide +kernel "
                  "over the table generated from the source) + differential correspondence on link structures + mutation fuzzing "
@@ -152,13 +153,15 @@ class CHECK(core.Check):
         if self._variant is None:
             o = outcome(over_script([1, 2, 1]), LIMIT_LOOP)[0] != "HANG"
             u = outcome(under_script([1, 0]), LIMIT_LOOP)[0] != "HANG"
-            self._variant = (o, u)
+            c = outcome(clone_script([[1], [1]]), LIMIT_LOOP)[0] != "HANG"
+            self._variant = (o, u, c)
         return self._variant
 
     def extra_evidence(self):
-        o, u = self.variant()
+        o, u, c = self.variant()
         t = getattr(self, "_table", (0, 0, 0))
-        return {"tree_variant": "over loop check %s, under loop check %s" % ("present" if o else "absent", "present" if u else "absent"),
+        return {"tree_variant": "over loop check %s, under loop check %s, clone loop check %s" % tuple(
+                    "present" if x else "absent" for x in (o, u, c)),
                 "generated_table": {"format_sites": t[0], "mismatching": t[1], "unbound_names": t[2]}}
 
     # ---- cases
@@ -232,13 +235,13 @@ class CHECK(core.Check):
         return self._cache[key]
 
     def requests(self, case):
-        o, u = self.variant()
+        o, u, c = self.variant()
         if case["kind"] == "overs":
             return ["%s 400 %s" % ("oversc" if o else "overs", links_word(case["links"]))]
         if case["kind"] == "unders":
             return ["%s 400 %s" % ("undersc" if u else "unders", links_word(case["links"]))]
         if case["kind"] == "clones":
-            return ["clones 3000 0 " + ";".join(",".join(map(str, r)) or "-" for r in case["table"])]
+            return [("clonesc" if c else "clones") + " 3000 0 " + ";".join(",".join(map(str, r)) or "-" for r in case["table"])]
         return []
 
     def model_post(self, case, replies):
